@@ -30,14 +30,14 @@ Set Printing Depth 1000000.
 
 # ------------------------------------------------------------------------------------ scenarios
 
-def sprinkle_unset(r, f, p=0.25):
+def sprinkle_unset(r, f, p=0.25, allow_name=True):
     """returns a copy of family literal f in which some setters are skipped (pvlib.UNSET): the field then reads as the data
     model's default in both builds - exactly the reads `c16_defaults` is about"""
     import copy
     g = copy.deepcopy(f)
     def u(x): return UNSET if r.random() < p else x
     g["help"] = u(g["help"]); g["type"] = u(g["type"])
-    if r.random() < p * 0.4: g["name"] = UNSET
+    if allow_name and r.random() < p * 0.4: g["name"] = UNSET
     for m in g["metrics"]:
         for k in ("gauge", "counter", "untyped"):
             if m[k] is not None: m[k] = u(m[k])
@@ -76,6 +76,8 @@ def custom_scenario(r):
             f = p_C04.gen_family(r, taken, True, 0.05)
             if f["name"]:
                 f["name"] = "c%d_%s" % (ci, f["name"])
+            elif ci > 0:
+                f["name"] = "c%d_noname" % ci        # an empty family name in the first collector only (see sprinkle below)
             fams.append(f)
         if r.random() < 0.3 and fams and fams[0]["name"]:
             # the same family name twice inside one collector: merged in collect order
@@ -83,7 +85,14 @@ def custom_scenario(r):
             g["name"] = fams[0]["name"]; g["type"] = fams[0]["type"]
             fams.append(g)
         if r.random() < 0.5:
-            fams = [sprinkle_unset(r, f) if r.random() < 0.7 else f for f in fams]
+            # an unset (= empty) family name only in the first collector and at most once: two families of one name in DIFFERENT
+            # collectors are merged in the registry's HashMap order, which neither build controls
+            named = [False]
+            def sp(f):
+                g = sprinkle_unset(r, f, allow_name=(ci == 0 and not named[0]))
+                if g["name"] == UNSET: named[0] = True
+                return g
+            fams = [sp(f) if r.random() < 0.7 else f for f in fams]
         cols.append(s.emit("OpCustom", [("cust%d" % ci, "h", [], [])], fams))
     prefix = r.choice([None, None, "p", "ns_1"])
     labels = r.choice([None, None, [("zone", "eu"), ("c1", "1")], [("env", "é")]])
